@@ -96,6 +96,17 @@ RoundReal ==
 
 Round == RoundSkip \/ RoundSynthetic \/ RoundReal
 
+\* A due check on a backend that hangs, cut short by the sweep's own time budget: a check that did not succeed
+\* is a failed check, its result is stored like any other (the endpoint leaves the rotation). Whether the
+\* breaker saw the failure depends on where the budget ran out (between retries it is not told), so both are
+\* behaviours.
+RoundCut ==
+    /\ act' = "RoundCut" /\ wait = 0 /\ HB!Admits /\ backend = "timeout" /\ ~pend.on
+    /\ real' = TRUE /\ sinceReal' = 0
+    /\ StoreFailure("offline") /\ UNCHANGED cb
+    /\ (HB!Fail \/ UNCHANGED hbvars)
+    /\ UNCHANGED <<ci, backend, hbScn, pend, slowSeen>>
+
 \* the proxy saw a connection-level failure on this endpoint (second writer)
 ProxyFailure == /\ act' = "ProxyFailure" /\ real' = FALSE
                 /\ StoreFailure("offline")
@@ -130,6 +141,7 @@ Log(tok) == scn' = Append(scn, tok)
 Next == \/ \E o \in Outcomes : SetBackend(o) /\ Log(<<"SetBackend", o>>)
         \/ \E d \in Ticks : Tick(d) /\ Log(<<"Tick", d>>)
         \/ Round /\ Log("Round")
+        \/ RoundCut /\ Log("RoundCut")
         \/ ProxyFailure /\ Log("ProxyFailure")
         \/ SlowBegin /\ Log("SlowBegin")
         \/ /\ pend.on
